@@ -636,6 +636,14 @@ class State:
                         cands.add(b)
                     if b == xt:
                         cands.add(a)
+            # one more hop: what the alias targets themselves are related to  (x = y - 1 on one side, y <= W - 1  ==>  x <= W - 2)
+            for v, st in ((va, self), (vb, other)):
+                if v is not None and v[0] == "n" and v[1] is not None:
+                    for (a, b) in st.rel:
+                        if a == v[1]:
+                            cands.add(b)
+                        if b == v[1]:
+                            cands.add(a)
             for t in cands:
                 if t == xt:
                     continue
